@@ -212,7 +212,7 @@ theorem C12_content (o : Ora) (i : In) (a : Answer) (h : attrQuery o i = .answer
     handler and `makeAttributeQueryResponse` are translated on every run and tied by proof
     (`AttrQueryGen.attrquery_handler_refines`, `makeAttributeQueryResponse_refines`, Props/AttrQueryProps.lean) -/
 theorem C12_source_current : Consts.current = true ∧
-    FactsUtil.sameHashes ["xml.DecodeAttributeQuery", "xml.WriteXMLMarshalled", "serviceprovider.ServiceProvider.ValidatePostSignature"] = true := ⟨by decide, by decide⟩
+    FactsUtil.sameHashes ["xml.WriteXMLMarshalled", "serviceprovider.ServiceProvider.ValidatePostSignature"] = true := ⟨by decide, by decide⟩
 
 /-- non-vacuity -/
 def ora0 : Ora where
